@@ -5,7 +5,8 @@
    universe g, configuration c (concurrency, mode, root, initial proxy cache), started
    with the destination holding the nodes d0.  Quantifying over tr quantifies over every
    interleaving of the visible events of every schedule. *)
-From Oras Require Import Base.Prelude Generated.GC01 Model.CopySpec Model.CopyTop Proofs.CopySpec.
+From Oras Require Import Base.Prelude Generated.GC01 Model.CopySpec Model.CopyTop Model.CopyOpt
+  Proofs.CopySpec Proofs.CopyAcct Proofs.CopyOpt.
 Local Open Scope nat_scope.
 
 (* Success => every node reachable from the root (foreign layers cut) is in the
@@ -26,6 +27,7 @@ Theorem C01_copy_result :
   forall (g : graph) (c : cfg) (d0 : list node) (rank : node -> nat),
     (forall n x, In x (succ' g n) -> rank x < rank n) ->
     forall (tr : list event) (st : state) (fuel : nat),
+    c_xroots c = [] ->   (* Copy / CopyGraph: one root *)
     closed_nodes g d0 -> mt_consistent g -> rank (c_root c) < fuel ->
     accepts g c d0 tr = Some st -> returned st = Some true ->
     forall n, has g (dst st) n = has g (copy_result g d0 fuel (c_root c)) n.
@@ -91,3 +93,77 @@ Example C01_example :
   exists st, accepts g_ex c_ex [1] tr_ex = Some st /\ returned st = Some true /\
              tag st = Some 3 /\ present_nodes g_ex (dst st) = [0; 1; 2; 3].
 Proof. exact example_run. Qed.
+
+(* ---- optional callbacks (Model/CopyOpt.v) ----
+   [cs : cbset] says which of PreCopy / PostCopy / OnCopySkipped / OnMounted are set
+   (cs = fun _ => false: the default options).  [accepts_opt cs g c d0 tr = Some (st, full)]:
+   the recorded trace tr, which contains no event of a nil callback, is a run of
+   Copy/CopyGraph; full is its elaboration (the nil callbacks' invocation points made
+   explicit), accepted by the transition system.  The three C01 statements hold for every
+   choice of cs. *)
+Theorem C01_closure_any_callbacks :
+  forall (cs : cbset) (g : graph) (c : cfg) (d0 : list node) (tr : list event) (st : state)
+         (full : list event),
+    closed_nodes g d0 -> mt_consistent g ->
+    accepts_opt cs g c d0 tr = Some (st, full) -> returned st = Some true ->
+    forall n, reach g (c_root c) n -> has g (dst st) n = true.
+Proof. exact closure_opt. Qed.
+Print Assumptions C01_closure_any_callbacks.
+
+Theorem C01_copy_result_any_callbacks :
+  forall (cs : cbset) (g : graph) (c : cfg) (d0 : list node) (rank : node -> nat),
+    (forall n x, In x (succ' g n) -> rank x < rank n) ->
+    forall (tr : list event) (st : state) (full : list event) (fuel : nat),
+    c_xroots c = [] ->
+    closed_nodes g d0 -> mt_consistent g -> rank (c_root c) < fuel ->
+    accepts_opt cs g c d0 tr = Some (st, full) -> returned st = Some true ->
+    forall n, has g (dst st) n = has g (copy_result g d0 fuel (c_root c)) n.
+Proof. exact copy_result_opt. Qed.
+Print Assumptions C01_copy_result_any_callbacks.
+
+(* the tag: root copied, already present or mounted, Tagger or ReferencePusher, and the
+   user's PostCopy / OnCopySkipped / OnMounted hook nil or set *)
+Theorem C01_tagged_any_callbacks :
+  forall (cs : cbset) (g : graph) (c : cfg) (d0 : list node) (tr : list event) (st : state)
+         (full : list event),
+    accepts_opt cs g c d0 tr = Some (st, full) -> returned st = Some true ->
+    c_mode c <> MGraph -> tag_ok g c = true -> tag st = Some (c_root c).
+Proof. exact tagged_opt. Qed.
+Print Assumptions C01_tagged_any_callbacks.
+
+(* the recorded trace is the elaborated one minus the nil callbacks' events *)
+Theorem C01_elaboration :
+  forall (cs : cbset) (g : graph) (c : cfg) (d0 : list node) (tr : list event) (st : state)
+         (full : list event),
+    accepts_opt cs g c d0 tr = Some (st, full) ->
+    accepts g c d0 full = Some st /\ erase cs full = tr.
+Proof. exact elaboration_lemma. Qed.
+Print Assumptions C01_elaboration.
+
+(* satisfiable with the default options: the root is already present in a Tagger destination,
+   no hook is set, and the only events are Exists and Tag *)
+Example C01_example_default_options :
+  exists st full,
+    accepts_opt (fun _ => false) g_ex c_ex [0; 1; 2; 3] [ExB 3; ExE 3 true; TagB 3; TagE 3; Ret true]
+      = Some (st, full) /\
+    returned st = Some true /\ tag st = Some 3 /\ In (Cb CSkip 3) full.
+Proof. eexists. eexists. split; [vm_compute; reflexivity|]. repeat split; simpl; auto. Qed.
+
+(* WithTargetPlatform on a manifest list (platform.SelectManifest / Match, modelled in
+   Model/CopyTop.v and compared with the implementation on every generated platform case):
+   the mapped root is exactly the first entry whose platform matches; no entry matches =>
+   Copy fails before copying (prologue) *)
+Theorem C01_platform_selection :
+  forall (entries : list (node * option plat)) (want : plat) (n : node),
+    select_manifest entries want = Some n <->
+    exists l1 p l2, entries = l1 ++ (n, p) :: l2 /\ plat_match p want = true /\
+                    forall m q, In (m, q) l1 -> plat_match q want = false.
+Proof. exact select_manifest_spec. Qed.
+Print Assumptions C01_platform_selection.
+
+Theorem C01_platform_no_match :
+  forall (entries : list (node * option plat)) (want : plat),
+    select_manifest entries want = None <->
+    forall m q, In (m, q) entries -> plat_match q want = false.
+Proof. exact select_manifest_none. Qed.
+Print Assumptions C01_platform_no_match.
